@@ -319,7 +319,93 @@ pub fn run(tier: Tier) {
         }
     });
 
+    // ---- scopes inside a third-party block are resolved against its own key table only
+    // token: authority ; optional first-party block interning keys into the carrier table (always-true checks) ;
+    // provider block signed by P carrying pv(1) ; consumer block signed by another key with
+    // `check if pv(1) trusting <C>` : authorized iff C == P, whatever the carrier table holds
+    let scope_cfgs = AtomicUsize::new(0);
+    let scope_outcomes: Mutex<std::collections::BTreeMap<String, usize>> = Mutex::new(Default::default());
+    {
+        let keys: Vec<KeyPair> = vec![ext_key(Alg::Ed, 0), ext_key(Alg::P256, 0), ext_key(Alg::Ed, 1), ext_key(Alg::P256, 1)];
+        let key_names = ["K1(ed25519)", "K2(secp256r1)", "K3(ed25519)", "K4(secp256r1)"];
+        let prefixes: Vec<Vec<usize>> = vec![vec![], vec![0], vec![1], vec![2], vec![0, 1], vec![1, 0], vec![2, 3, 0], vec![3, 2, 1, 0]];
+        let mut cfgs = vec![];
+        for root_alg in ALGS {
+            for pre in &prefixes {
+                for p_signer in 0..3usize {
+                    for c_scope in 0..3usize {
+                        for consumer_first in [false, true] {
+                            for via_unverified in [false, true] {
+                                cfgs.push((root_alg, pre.clone(), p_signer, c_scope, consumer_first, via_unverified));
+                            }
+                        }
+                    }
+                }
+            }
+        }
+        cfgs.par_iter().for_each(|(root_alg, pre, p_signer, c_scope, consumer_first, via_unverified)| {
+            scope_cfgs.fetch_add(1, Ordering::Relaxed);
+            let describe = || json!({"root": root_alg.name(), "carrier_key_table": pre.iter().map(|i| key_names[*i]).collect::<Vec<_>>(), "provider_signed_by": key_names[*p_signer], "consumer_scope": key_names[*c_scope], "consumer_before_provider": consumer_first, "through_unverified_api": via_unverified});
+            let r = guard(|| -> Result<String, String> {
+                let e = |x: biscuit_auth::error::Token| format!("{x:?}");
+                let mut t = biscuit_auth::builder::BiscuitBuilder::new().code("auth(0);").map_err(e)?.build_with_key_pair(&root(*root_alg), biscuit_auth::datalog::SymbolTable::new(), &key(Alg::Ed, ROLE_NEXT, 20)).map_err(e)?;
+                if !pre.is_empty() {
+                    let code: String = pre.iter().map(|i| format!("check if true trusting {};", pk_str(&keys[*i].public()))).collect();
+                    t = t.append_with_keypair(&key(Alg::Ed, ROLE_NEXT, 21), biscuit_auth::builder::BlockBuilder::new().code(code).map_err(e)?).map_err(e)?;
+                }
+                // the consumer is signed by a key that is neither the provider's nor the one it names
+                let consumer_signer = (0..4usize).find(|k| k != p_signer && k != c_scope).unwrap();
+                let provider = ("pv(1);".to_string(), *p_signer);
+                let consumer = (format!("check if pv(1) trusting {};", pk_str(&keys[*c_scope].public())), consumer_signer);
+                let order = if *consumer_first { vec![consumer, provider] } else { vec![provider, consumer] };
+                for (n, (code, signer)) in order.iter().enumerate() {
+                    let block = biscuit_auth::builder::BlockBuilder::new().code(code).map_err(e)?;
+                    if *via_unverified {
+                        let u = UnverifiedBiscuit::from(&t.to_vec().map_err(e)?).map_err(e)?;
+                        let req = u.third_party_request().map_err(e)?;
+                        let resp = req.create_block(&keys[*signer].private(), block).map_err(e)?;
+                        let u2 = u.append_third_party_with_keypair(&resp.serialize().map_err(e)?, key(Alg::Ed, ROLE_NEXT, 22 + n as u8)).map_err(e)?;
+                        t = u2.verify(root(*root_alg).public()).map_err(|x| format!("{x:?}"))?;
+                    } else {
+                        let req = t.third_party_request().map_err(e)?;
+                        let resp = req.create_block(&keys[*signer].private(), block).map_err(e)?;
+                        t = t.append_third_party_with_keypair(keys[*signer].public(), resp, key(Alg::Ed, ROLE_NEXT, 22 + n as u8)).map_err(e)?;
+                    }
+                }
+                // also after a reload
+                let reloaded = Biscuit::from(&t.to_vec().map_err(e)?, root(*root_alg).public()).map_err(e)?;
+                let mut out = vec![];
+                for tok in [&t, &reloaded] {
+                    let mut a = AuthorizerBuilder::new().code("allow if true;").map_err(e)?.limits(crate::c04::big_limits()).build(tok).map_err(e)?;
+                    out.push(match a.authorize() {
+                        Ok(_) => "authorized".to_string(),
+                        Err(biscuit_auth::error::Token::FailedLogic(_)) => "check-failed".to_string(),
+                        Err(x) => format!("error {x:?}"),
+                    });
+                }
+                if out[0] != out[1] {
+                    return Err(format!("in memory {} / reloaded {}", out[0], out[1]));
+                }
+                Ok(out[0].clone())
+            });
+            let expected = if p_signer == c_scope { "authorized" } else { "check-failed" };
+            match r {
+                Err(pn) => ctx.violation_lazy(format!("C07/panic/{}", panic_site(&pn)), || json!({"case": describe(), "panic": pn})),
+                Ok(Err(e)) => ctx.violation_lazy("C07/third-party-scope-resolution/construction-failed".to_string(), || json!({"case": describe(), "error": e})),
+                Ok(Ok(o)) => {
+                    *scope_outcomes.lock().unwrap().entry(o.clone()).or_default() += 1;
+                    if o != expected {
+                        let k = if pre.is_empty() { "empty-carrier-table" } else { "carrier-table-holds-other-keys" };
+                        ctx.violation_lazy(format!("C07/third-party-scope-resolution/{k}/{}", if expected == "authorized" { "own-scope-key-not-honoured" } else { "trusts-a-key-it-does-not-name" }), || json!({"case": describe(), "observed": o, "expected": expected}));
+                    }
+                }
+            }
+        });
+    }
+
     let cov = json!({
+        "third_party_scope_resolution_configurations": scope_cfgs.load(Ordering::Relaxed),
+        "third_party_scope_resolution_outcomes": scope_outcomes.into_inner().unwrap(),
         "states": states.len(),
         "transitions": attempts.load(Ordering::Relaxed),
         "traces_validated_against_impl": attempts.load(Ordering::Relaxed),
